@@ -1,8 +1,8 @@
 """C10 — compile-time constant expressions evaluate as in C.
 
 proof   : Props/C10.v on Model/Calc.v (pest's Pratt algorithm with the calculator's table): every
-          pair of binary operators is grouped as C groups it for all operand values (except == / !=
-          against the relational operators: refuted, known finding); unary operators bind tightest;
+          pair of binary operators is grouped as C groups it for all operand values (no exception
+          since the repair of the == / relational level); unary operators bind tightest;
           comparisons and logical operators yield 0/1; truncating division rejected on zero; ?: for
           plain operands (nested in the middle operand: refuted, known finding)
 corr-M  : the real calculator (values of `const` initialisers, array sizes) vs the extracted model
@@ -17,7 +17,7 @@ import shutil
 from lib.common import *
 
 LEVEL = 'proof'
-THEOREMS = ['C10_pairs_grouped_as_C', 'C10_eq_rel_precedence_refuted', 'C10_unary_binds_tightest', 'C10_truth_values',
+THEOREMS = ['C10_pairs_grouped_as_C', 'C10_eq_rel_precedence_fixed', 'C10_unary_binds_tightest', 'C10_truth_values',
             'C10_not_is_logical', 'C10_division', 'C10_ternary_correct', 'C10_ternary_nested_refuted']
 
 BINOPS = ['*', '/', '+', '-', '<<', '>>', '<', '<=', '>', '>=', '==', '!=', '&', '^', '|', '&&', '||']
